@@ -108,6 +108,31 @@ def search(payload):
                     break
         if timeouts >= 3:
             break
+    # FAR reads: the 40th-6000th value of streams whose first values are always fine
+    import datetime as _dt
+    from predicate.set_predicates import is_real_subset_p as _rs
+    from predicate.standard_predicates import gt_p as _gt, lt_p as _lt
+    d1 = _dt.datetime(2024, 1, 15, 10, 30)
+    for p, count in ((_gt(d1), 200), (_lt(d1), 200), (_rs(set(range(11))), 7000), (_rs(set(range(12))), 5000), (ge_p(5), 400), (le_p(-7), 400),
+                     (ge_p(0.5), 4300), (is_list_of_p(ge_p(2)), 300)):
+        for seed in range(2):
+            if timeouts >= 3:
+                break
+            random.seed(int(payload["seed"]) * 911 + seed)
+            try:
+                vals, err = g.take(GENF(p), count, seconds=60.0)
+            except (ValueError, TypeError):
+                continue
+            if err == "timeout":
+                timeouts += 1
+            elif err:
+                fails.append({"p": repr(p), "p_structure": skey(p), "position": len(vals), "value": "(none)", "p(value)": f"the stream raised {err}"})
+                break
+            bad_i = next((i for i, v in enumerate(vals) if call(p, v) != ("ok", True)), None)
+            n += len(vals)
+            if bad_i is not None:
+                fails.append({"p": repr(p), "p_structure": skey(p), "position": bad_i, "value": repr(vals[bad_i])[:200], "p(value)": repr(call(p, vals[bad_i]))})
+                break
     # judged by a reference written from the CONSTRUCTOR CALL, not by the object the library built (a factory that re-interprets its
     # arguments, or an object mutated on the way, would otherwise vouch for its own values)
     from predicate.set_predicates import in_p
